@@ -2,6 +2,7 @@
 (* L1 semantics of element-wise expressions (C02) and of the expression trees used by C09.        *)
 (* An expression is a record tree:                                                               *)
 (*   [k |-> "t", n]        tensor leaf named n           [k |-> "s", v]   scalar (broadcast)      *)
+(*   [k |-> "k", v]        literal scalar constant v                                                  *)
 (*   [k |-> "neg"|"abs"|"sqrt"|"not", x]                 unary                                    *)
 (*   [k |-> "add"|"sub"|"mul"|"div"|"min"|"max"|"lt"|"le"|"gt"|"ge"|"eq"|"ne"|"and"|"or", l, r]   *)
 (* Elementwise: the value at flat position p is the scalar operation applied to the p-th elements  *)
@@ -20,6 +21,7 @@ RECURSIVE At(_, _, _)
 At(e, env, p) ==
     CASE e.k = "t" -> env[e.n][p]
       [] e.k = "s" -> e.v
+      [] e.k = "k" -> e.v                                   \* literal constant (a scalar of the element type)
       [] e.k = "neg" -> 0 - At(e.x, env, p)
       [] e.k = "abs" -> Abs(At(e.x, env, p))
       [] e.k = "sqrt" -> ISqrt(At(e.x, env, p))
@@ -62,7 +64,7 @@ RECURSIVE DomAt(_, _, _)
 Lim24 == 16777216
 Mag(v) == v > 0 - Lim24 /\ v < Lim24
 DomAt(e, env, p) ==
-    CASE e.k \in {"t", "s"} -> TRUE
+    CASE e.k \in {"t", "s", "k"} -> TRUE
       [] e.k \in {"neg", "abs", "not"} -> DomAt(e.x, env, p)
       [] e.k = "sqrt" -> DomAt(e.x, env, p) /\ IsSquare(At(e.x, env, p))
       [] e.k = "div" -> /\ DomAt(e.l, env, p) /\ DomAt(e.r, env, p)
